@@ -333,6 +333,16 @@ func emitC11Doc(out *Out, r *Rng) {
 			if pdt, pterr := merklize.TypeFromContext(ctxBytes, rootType+"."+strings.Join(noIdx, ".")); (pterr == nil) != (terr == nil) || pdt != dt {
 				why = append(why, fmt.Sprintf("merklize.TypeFromContext gives %q (%v), Options.TypeFromContext %q (%v)", pdt, pterr, dt, terr))
 			}
+			// the same question with the positions left in the path: the answer is an error or the same datatype,
+			// never an empty or different one
+			if idt, ierr := opts.TypeFromContext(ctxBytes, rootType+"."+dotted); ierr != nil {
+				o["dtIdx"] = J{"err": "err"}
+			} else {
+				o["dtIdx"] = J{"ok": idt}
+				if terr != nil || idt != dt {
+					why = append(why, fmt.Sprintf("TypeFromContext(%s) with its positions gives %q, without them %q (%v)", dotted, idt, dt, terr))
+				}
+			}
 			if terr != nil {
 				o["dt"] = J{"err": "err"}
 			} else {
